@@ -19,6 +19,7 @@ mod util;
 mod xmlser;
 
 fn main() {
+    util::install_logger();
     let argv: Vec<String> = std::env::args().collect();
     if argv.len() < 2 {
         eprintln!("usage: xsgv <sub-command> [--key value]...");
